@@ -61,7 +61,7 @@ def _world(I, empty=False):
         S = 0
         b.supply[LP3] = 0
     else:
-        S = I.sym('lp_supply', lo=MINLIQ + 1, hi=U128 // 4)
+        S = I.sym('lp_supply', lo=MINLIQ, hi=U128 // 4)
         b.supply[LP3] = S
         b.set(PM, LP3, MINLIQ)
         b.set('holder', LP3, simp(S - MINLIQ))
